@@ -410,7 +410,7 @@ func builderDelta(w *World, fs *FuncSummary, inv lenInvariant, F *Term) deltaVer
 	dF := Const(0)
 	var notes []string
 	replacedElem := "" // a list of F one of whose elements the builder overwrites in place
-	postForm := false // F' is expressed over the post-state (same symbolic form as F)
+	postForm := false  // F' is expressed over the post-state (same symbolic form as F)
 	var bad string
 	F.HasAtom(func(a *Atom) bool {
 		switch a.Kind {
@@ -1062,120 +1062,125 @@ func oxmLenRule(w *World, r *Report) {
 		if !ast.IsExported(fi.Decl.Name.Name) && w.calledFromModule(fi) {
 			continue // an unexported helper: decided through the exported functions that inline it
 		}
-		cs := w.CtorSummary(fi)
-		if cs == nil || cs.State == nil || cs.In == nil {
-			continue
-		}
-		// prefixes P with a stored mask flag
-		var prefixes []string
-		for p := range cs.Fields {
-			if strings.HasSuffix(p, ".HasMask") {
-				prefixes = append(prefixes, strings.TrimSuffix(p, ".HasMask"))
-			}
-		}
-		sort.Strings(prefixes)
-		for _, P := range prefixes {
-			// only match-field objects: the root of a function returning one, or a field of that type
-			if P == "$" {
-				rt := fi.Pkg.TypesInfo.TypeOf(fi.Decl.Type.Results.List[0].Type)
-				if rt == nil || !isMF(rt) {
-					continue
-				}
-			} else if !strings.HasSuffix(P, ".Field") {
+		sums := w.CtorSummaries(fi)
+		for si, cs := range sums {
+			if cs == nil || cs.State == nil || cs.In == nil {
 				continue
 			}
-			pos := w.Pos(fi.Decl.Pos())
-			inst := strings.TrimPrefix(P, "$")
-			if inst == "" {
-				inst = "result"
+			// prefixes P with a stored mask flag
+			var prefixes []string
+			for p := range cs.Fields {
+				if strings.HasSuffix(p, ".HasMask") {
+					prefixes = append(prefixes, strings.TrimSuffix(p, ".HasMask"))
+				}
 			}
-			lenOf := func(v Val, what string) (*Term, string) {
-				switch x := v.(type) {
-				case nil:
-					// not assigned by this function: the part the existing field already has
-					return LenCall(P+"."+what, "util.Message"), ""
-				case NilV:
-					return Const(0), ""
-				case ObjV:
-					if k := w.KindOfType(x.Type); k != nil && k.Len != nil {
-						ls := w.LenSummary(k)
-						if ls != nil && ls.Term != nil {
-							t := w.ExpandLens(ls.Term.Reroot(x.Path), 0)
-							return cs.In.resolveLocal(cs.State, t), ""
-						}
+			sort.Strings(prefixes)
+			for _, P := range prefixes {
+				// only match-field objects: the root of a function returning one, or a field of that type
+				if P == "$" {
+					rt := fi.Pkg.TypesInfo.TypeOf(fi.Decl.Type.Results.List[0].Type)
+					if rt == nil || !isMF(rt) {
+						continue
 					}
-					return LenCall(x.Path, "util.Message"), ""
-				case MaybeV:
-					if k := w.KindOfType(x.V.Type); k != nil && k.Len != nil {
-						if ls := w.LenSummary(k); ls != nil && ls.Term != nil {
-							t := w.ExpandLens(ls.Term.Reroot(x.V.Path), 0)
-							return cs.In.resolveLocal(cs.State, t), ""
+				} else if !strings.HasSuffix(P, ".Field") {
+					continue
+				}
+				pos := w.Pos(fi.Decl.Pos())
+				inst := strings.TrimPrefix(P, "$")
+				if inst == "" {
+					inst = "result"
+				}
+				if len(sums) > 1 {
+					inst = fmt.Sprintf("%s@return%d", inst, si+1)
+				}
+				lenOf := func(v Val, what string) (*Term, string) {
+					switch x := v.(type) {
+					case nil:
+						// not assigned by this function: the part the existing field already has
+						return LenCall(P+"."+what, "util.Message"), ""
+					case NilV:
+						return Const(0), ""
+					case ObjV:
+						if k := w.KindOfType(x.Type); k != nil && k.Len != nil {
+							ls := w.LenSummary(k)
+							if ls != nil && ls.Term != nil {
+								t := w.ExpandLens(ls.Term.Reroot(x.Path), 0)
+								return cs.In.resolveLocal(cs.State, t), ""
+							}
 						}
+						return LenCall(x.Path, "util.Message"), ""
+					case MaybeV:
+						if k := w.KindOfType(x.V.Type); k != nil && k.Len != nil {
+							if ls := w.LenSummary(k); ls != nil && ls.Term != nil {
+								t := w.ExpandLens(ls.Term.Reroot(x.V.Path), 0)
+								return cs.In.resolveLocal(cs.State, t), ""
+							}
+						}
+						return LenCall(x.V.Path, "util.Message"), ""
 					}
-					return LenCall(x.V.Path, "util.Message"), ""
+					return nil, what + " is " + v.valString() + ", not an object the rule can size"
 				}
-				return nil, what + " is " + v.valString() + ", not an object the rule can size"
-			}
-			L, okL := cs.Fields[P+".Length"].(IntV)
-			if !okL {
-				if _, assigned := cs.Fields[P+".Length"]; !assigned {
-					// a function that edits the mask flag of an existing field without touching its length
-					r.Fail(VViolation, "oxmlen", fi.Key, inst, pos, "the function changes the mask flag (or the mask) of an existing match field and leaves oxm_length as it was: the length covers value and mask, so it no longer matches the payload that is encoded")
-					continue
-				} else {
-					r.Fail(VUndecided, "oxmlen", fi.Key, inst, pos, "oxm_length is assigned a value the interpreter cannot follow")
+				L, okL := cs.Fields[P+".Length"].(IntV)
+				if !okL {
+					if _, assigned := cs.Fields[P+".Length"]; !assigned {
+						// a function that edits the mask flag of an existing field without touching its length
+						r.Fail(VViolation, "oxmlen", fi.Key, inst, pos, "the function changes the mask flag (or the mask) of an existing match field and leaves oxm_length as it was: the length covers value and mask, so it no longer matches the payload that is encoded")
+						continue
+					} else {
+						r.Fail(VUndecided, "oxmlen", fi.Key, inst, pos, "oxm_length is assigned a value the interpreter cannot follow")
+						continue
+					}
+				}
+				if _, hasValue := cs.Fields[P+".Value"]; !hasValue && P == "$" {
+					continue // a header factory: the payload is attached by its caller, which is checked
+				}
+				vT, why := lenOf(cs.Fields[P+".Value"], "Value")
+				if vT == nil {
+					r.Fail(VUndecided, "oxmlen", fi.Key, inst, pos, why)
 					continue
 				}
-			}
-			if _, hasValue := cs.Fields[P+".Value"]; !hasValue && P == "$" {
-				continue // a header factory: the payload is attached by its caller, which is checked
-			}
-			vT, why := lenOf(cs.Fields[P+".Value"], "Value")
-			if vT == nil {
-				r.Fail(VUndecided, "oxmlen", fi.Key, inst, pos, why)
-				continue
-			}
-			mT, why := lenOf(cs.Fields[P+".Mask"], "Mask")
-			if mT == nil {
-				r.Fail(VUndecided, "oxmlen", fi.Key, inst, pos, why)
-				continue
-			}
-			vT, mT = simplifyUnderGuard(vT, cs.Guard), simplifyUnderGuard(mT, cs.Guard)
-			want := vT
-			switch h := cs.Fields[P+".HasMask"].(type) {
-			case BoolV:
-				switch h.Cond {
-				case "true":
-					want = want.Add(mT)
-				case "false":
+				mT, why := lenOf(cs.Fields[P+".Mask"], "Mask")
+				if mT == nil {
+					r.Fail(VUndecided, "oxmlen", fi.Key, inst, pos, why)
+					continue
+				}
+				vT, mT = simplifyUnderGuard(vT, cs.Guard), simplifyUnderGuard(mT, cs.Guard)
+				want := vT
+				switch h := cs.Fields[P+".HasMask"].(type) {
+				case BoolV:
+					switch h.Cond {
+					case "true":
+						want = want.Add(mT)
+					case "false":
+					default:
+						want = want.Add(Ite(h.Cond, mT, Const(0)))
+					}
 				default:
-					want = want.Add(Ite(h.Cond, mT, Const(0)))
+					r.Fail(VUndecided, "oxmlen", fi.Key, inst, pos, "the mask flag is assigned a value the interpreter cannot follow")
+					continue
 				}
-			default:
-				r.Fail(VUndecided, "oxmlen", fi.Key, inst, pos, "the mask flag is assigned a value the interpreter cannot follow")
-				continue
-			}
-			want = simplifyUnderGuard(want, cs.Guard)
-			// a header taken from the registry by a constant name: its width is the registry's
-			if rw, ok := w.registryWidthFor(fi); ok {
-				sub := func(t *Term) *Term {
-					return t.Map(func(a *Atom) *Term {
-						if a.Kind == "val" && strings.HasPrefix(a.Path, "global:openflow13.oxxFieldHeaderMap") && strings.HasSuffix(a.Path, ".Length") {
-							return Const(rw)
-						}
-						return nil
-					})
+				want = simplifyUnderGuard(want, cs.Guard)
+				// a header taken from the registry by a constant name: its width is the registry's
+				if rw, ok := w.registryWidthFor(fi); ok {
+					sub := func(t *Term) *Term {
+						return t.Map(func(a *Atom) *Term {
+							if a.Kind == "val" && strings.HasPrefix(a.Path, "global:openflow13.oxxFieldHeaderMap") && strings.HasSuffix(a.Path, ".Length") {
+								return Const(rw)
+							}
+							return nil
+						})
+					}
+					L = IntV{sub(L.T)}
+					want = sub(want)
 				}
-				L = IntV{sub(L.T)}
-				want = sub(want)
-			}
-			lc, _ := cs.canonTerm(stripWraps(L.T, map[string]bool{}))
-			wc, _ := cs.canonTerm(stripWraps(want, map[string]bool{}))
-			lc, wc = negNorm(w.ExpandLens(lc, 0)), negNorm(w.ExpandLens(wc, 0))
-			if termsEqual(lc, wc) {
-				r.OK("oxmlen", fi.Key, inst, pos, fmt.Sprintf("oxm_length = %v = payload bytes (value, plus mask when the flag is set)", pushCoef(lc)), true)
-			} else {
-				r.Fail(VViolation, "oxmlen", fi.Key, inst, pos, fmt.Sprintf("the function leaves oxm_length = %v, but the payload that follows the header has %v bytes (value, plus mask when the flag is set): the next field or action is read from the wrong place", pushCoef(lc), pushCoef(wc)))
+				lc, _ := cs.canonTerm(stripWraps(L.T, map[string]bool{}))
+				wc, _ := cs.canonTerm(stripWraps(want, map[string]bool{}))
+				lc, wc = negNorm(w.ExpandLens(lc, 0)), negNorm(w.ExpandLens(wc, 0))
+				if termsEqual(lc, wc) {
+					r.OK("oxmlen", fi.Key, inst, pos, fmt.Sprintf("oxm_length = %v = payload bytes (value, plus mask when the flag is set)", pushCoef(lc)), true)
+				} else {
+					r.Fail(VViolation, "oxmlen", fi.Key, inst, pos, fmt.Sprintf("the function leaves oxm_length = %v, but the payload that follows the header has %v bytes (value, plus mask when the flag is set): the next field or action is read from the wrong place", pushCoef(lc), pushCoef(wc)))
+				}
 			}
 		}
 	}
